@@ -196,10 +196,25 @@ static const Flav flavs[] = {
 	{ "blank+tab", " \t", " \t" }, { "tab+blank", "\t ", "\t " }, { "run-before,none-after", "  ", "" }, { "none-before,mix-after", "", "\t  " },
 };
 static const int NFLAV = sizeof flavs / sizeof *flavs;
+// comment flavour (flavour index NFLAV.. = comment flavour 1.., default white space): text that itself looks like
+// configuration, and trailing comments glued to the preceding token wherever the grammar ends a token at a comment
+// character (after the section start / end character, after an encapsulated section name, after the option end character)
+static const char *comflav[] = { "default", "glued,option-like", "glued,section-like", "blank,option-like" };
+static const int NCOMFLAV = sizeof comflav / sizeof *comflav;
+static const unsigned COMBITS = COMLINE | TRAILCOM;
+static std::string comtext(const Fmt &f, int cf)
+{
+	if (cf == 1 || cf == 3) return std::string("old ") + f.assign + " 1" + (f.oend ? std::string(1, f.oend) : std::string());
+	if (f.style == '*') return std::string("y ") + f.sstart;
+	if (f.style == ' ') return std::string(1, f.sstart) + "y" + f.send;
+	return std::string(1, f.sstart) + "y";
+}
 static const unsigned WSBITS = INDENT | TRAIL | TRAILCOM | PAD;
 
 static std::string render(const Fmt &f, const std::vector<TN> &tree, unsigned mask, int flav = 0)
 {
+	const int cf = flav >= NFLAV ? flav - NFLAV + 1 : 0;
+	if (cf) flav = 0;
 	const Flav &fl = flavs[flav];
 	std::vector<Line> lines;
 	flatten(tree, 0, f, lines);
@@ -208,7 +223,7 @@ static std::string render(const Fmt &f, const std::vector<TN> &tree, unsigned ma
 		for (size_t i = 0; i + 1 < lines.size(); ++i) if (lines[i].kind == 1 && lines[i + 1].kind == 0 && lines[i + 1].depth == lines[i].depth + 1) lines[i + 1].joined = true;
 	const bool oneline = f.oend && !(mask & NEWLINES);
 	const size_t ncom = strlen(f.com);
-	static const char *ctext = " c = {[x]}; \"q' `";
+	const std::string ctext = cf ? comtext(f, cf) : std::string(" c = {[x]}; \"q' `");
 	std::string d;
 	const unsigned docmask = mask;
 	for (size_t i = 0; i < lines.size(); ++i) {
@@ -252,7 +267,9 @@ static std::string render(const Fmt &f, const std::vector<TN> &tree, unsigned ma
 		bool had_comment = false;
 		// a trailing comment needs white space in front of it, the joined option white space behind the header
 		const char *sep = (flav && fl.b[0]) ? fl.b : " ";
-		if ((mask & TRAILCOM) && comment_ok) { d += sep; d += com; d += ctext; had_comment = true; }
+		// glued comment: only where a comment character ends the token (not behind a value that runs to the end of the line)
+		bool glue = (cf == 1 || cf == 2) && (l.kind != 0 || f.oend);
+		if ((mask & TRAILCOM) && comment_ok) { if (!glue) d += sep; d += com; d += ctext; had_comment = true; }
 		if (next_joined) d += sep;
 		else if (oneline && !had_comment) { /* items follow each other directly */ }
 		else d += '\n';
@@ -418,11 +435,12 @@ static uint64_t g_cnt[C_NCNT];
 // per-tree cache: everything that does not depend on the decoration mask
 static struct TreeCache { bool valid; std::string key, want, sigbase, plain_canon; int plain_ret; Feat ft; int lencl; } g_tc;
 
+static uint64_t g_flavcnt[16], g_comcnt[8];
+static const char *flavname(int flav) { return flav < NFLAV ? flavs[flav].name : comflav[flav - NFLAV + 1]; }
 static std::string describe(const Fmt &f, unsigned mask, int flav, const std::string &doc)
 {
-	return fmt("format %s \"%s\" mask %#x ws %s, document: %s", f.id, f.fmt ? f.fmt : "(default)", mask, flavs[flav].name, show(doc).c_str());
+	return fmt("format %s \"%s\" mask %#x ws %s, document: %s", f.id, f.fmt ? f.fmt : "(default)", mask, flavname(flav), show(doc).c_str());
 }
-static uint64_t g_flavcnt[16];
 static void check_case(Run &r, const Fmt &f, const std::vector<TN> &tree, unsigned mask, int flav, const std::string &treekey)
 {
 	TreeCache &tc = g_tc;
@@ -442,7 +460,7 @@ static void check_case(Run &r, const Fmt &f, const std::vector<TN> &tree, unsign
 	if (r.replaying) {
 		r.note("format %s (\"%s\", flags %s)  mask %#x", f.id, f.fmt ? f.fmt : "(default)", f.flags ? f.flags : "(all)", mask);
 		for (int b = 0; b < NBITN; ++b) if (mask & (1u << b)) r.note("  decoration: %s", bitname[b]);
-		if (mask & WSBITS) r.note("  white space flavour: %s", flavs[flav].name);
+		if (mask & (WSBITS | COMBITS)) r.note("  white space / comment flavour: %s", flavname(flav));
 		r.note("document (%zu bytes): %s", doc.size(), show(doc).c_str());
 		r.note("generating tree: %s", tc.want.c_str());
 	}
@@ -463,7 +481,8 @@ static void check_case(Run &r, const Fmt &f, const std::vector<TN> &tree, unsign
 	else { r.violation(tc.sigbase + "wrong-tree", describe(f, mask, flav, doc) + ": " + p.linkerr); bad = true; }
 	// coverage counters: what was enumerated (independent of the verdict), plus the number of cases that held
 	++g_cnt[C_CASES];
-	if (mask & WSBITS) ++g_flavcnt[flav];
+	if ((mask & WSBITS) && flav < NFLAV) ++g_flavcnt[flav];
+	if (mask & COMBITS) ++g_comcnt[flav >= NFLAV ? flav - NFLAV + 1 : 0];
 	if (mask) { for (int b = 0; b < NBITN; ++b) if (mask & (1u << b)) ++g_cnt[C_BIT0 + b]; }
 	else ++g_cnt[C_UNDECO];
 	g_cnt[C_NESTED] += ft.nested; g_cnt[C_DEPTH3] += ft.depth3; g_cnt[C_QUOTED] += ft.quoted; g_cnt[C_ESCQ] += ft.escq;
@@ -532,7 +551,13 @@ static void body(Run &r, const JobCtx &jc, Ctx &x)
 	}
 	unsigned mask = (*masks)[mi];
 	if (lenfam && __builtin_popcount(mask & ~ALT) > 2) nflav = 1;   // long values: flavours with at most two decorations
-	int flav = (nflav > 1 && (mask & WSBITS)) ? (int) x.choose(nflav) : 0;
+	int flav = 0;
+	if (nflav > 1 && (mask & (WSBITS | COMBITS))) {
+		// default, the other white space flavours (if white space is inserted), the other comment flavours (if comments are)
+		int nws = (mask & WSBITS) ? NFLAV - 1 : 0, nc = (mask & COMBITS) ? NCOMFLAV - 1 : 0;
+		int c = (int) x.choose(1 + nws + nc);
+		flav = c <= nws ? c : NFLAV + (c - nws - 1);
+	}
 	check_case(r, f, tree, mask, flav, key);
 }
 
@@ -543,13 +568,15 @@ void mc_explore(Run &r, const std::string &job)
 	for (int i = 0; i < C_BIT0; ++i) if (i != C_NOTCONSUMED && i != C_OK) r.require(cntname[i]);
 	for (int b = 0; b < NBITN; ++b) r.require(std::string("deco:") + bitname[b]);
 	for (int i = 0; i < NFLAV; ++i) r.require(std::string("ws:") + flavs[i].name);
-	memset(g_flavcnt, 0, sizeof g_flavcnt);
+	for (int i = 0; i < NCOMFLAV; ++i) r.require(std::string("comment:") + comflav[i]);
+	memset(g_flavcnt, 0, sizeof g_flavcnt); memset(g_comcnt, 0, sizeof g_comcnt);
 	for (int i = 0; i < NFMT; ++i) r.require(std::string("cases:") + fmts[i].id);
 	dfs(r, [&](Ctx &x) { body(r, jc, x); });
 	const Fmt &f = fmts[jc.j.fmt];
 	for (int i = 0; i < C_BIT0; ++i) if (g_cnt[i]) { r.count(cntname[i], g_cnt[i]); if (i == C_CASES) r.count(std::string("cases:") + f.id, g_cnt[i]); }
 	for (int b = 0; b < NBITN; ++b) if (g_cnt[C_BIT0 + b]) r.count(std::string("deco:") + bitname[b], g_cnt[C_BIT0 + b]);
 	for (int i = 0; i < NFLAV; ++i) if (g_flavcnt[i]) r.count(std::string("ws:") + flavs[i].name, g_flavcnt[i]);
+	for (int i = 0; i < NCOMFLAV; ++i) if (g_comcnt[i]) r.count(std::string("comment:") + comflav[i], g_comcnt[i]);
 }
 void mc_replay(Run &r, const std::string &job, const Vec &v)
 {
